@@ -12,7 +12,8 @@ from .common import MEM, writer_table
 EXPLANATION = ("Memory object streams: clone counters written only by __post_init__ (+1) and an idempotent close (-1 exactly with the "
                "closed mark), last close wakes every waiter of the other side, raise-site fact table for ClosedResourceError / EndOfStream / "
                "BrokenResourceError / WouldBlock, every other exit is reached only on a handle that is not closed."
-               " Blocked receivers (senders) are taken out of their queue, or have their events set, only by the peer's hand-over, their own clean-up and the close of the last send (receive) clone.")
+               " Blocked receivers (senders) are taken out of their queue, or have their events set, only by the peer's hand-over, their own clean-up and the close of the last send (receive) clone."
+               " Only close()/aclose()/leaving the with-block give a handle's share of the clone count back (the finaliser only warns); a receiver is skipped only on a verdict about its own task.")
 NOT_DECIDED = "Histories of clone()/close() over many handles (the counters' run-time values); only the per-site discipline is decided."
 
 SIDES = {
